@@ -249,6 +249,21 @@ def analyse(f, elem_params, allow=lambda site: None):
             rn, rt = root_name(cont if cont is not None else t)
             if rn is None:
                 continue
+            # a write through a reference local bound once to an element (`auto& x = a[i].get(); x.f = ..`) is a write to
+            # that element
+            if idx is None and b.is_local(rn) and isinstance(rt, dict) and (rt.get("t") or {}).get("ref") and \
+                    len(b.locals.get(rn, [])) == 1 and not b.assigned.get(rn):
+                init = strip(b.locals[rn][0])
+                while isinstance(init, dict) and init.get("k") == "call" and init.get("name") == "get" and init.get("recv") is not None \
+                        and not init.get("a"):
+                    init = strip(init["recv"])
+                c2, i2 = indexed_target(init)
+                if i2 is not None:
+                    t = init
+                    cont, idx = c2, i2
+                    rn, rt = root_name(cont)
+                    if rn is None:
+                        continue
             if b.is_local(rn) and not (isinstance(rt, dict) and (rt.get("t") or {}).get("ref")):
                 continue        # body-local object
             if rn in b.params and rn not in b.elem:
